@@ -276,13 +276,14 @@ func sites() []site {
 					}
 					w.MustSeed("user", xrk.PipelineComposition("comp", g+"/v1", "XThing", []string{"fn-0"}, nil))
 				} else {
+					// P&T names a composed resource through a patch to metadata.name
 					w.MustSeed("user", xrk.ResourcesComposition("comp", g+"/v1", "XThing", []map[string]any{
-						{"name": "a", "base": nopObj("NopA", "1"), "connectionDetails": []any{map[string]any{"name": "k", "type": "FromValue", "value": "v"}}, "readinessChecks": []any{map[string]any{"type": "None"}}}}))
+						{"name": "a", "base": nopObj("NopA", "1"), "patches": []any{map[string]any{"type": "FromCompositeFieldPath", "fromFieldPath": "spec.wantName", "toFieldPath": "metadata.name"}}, "connectionDetails": []any{map[string]any{"name": "k", "type": "FromValue", "value": "v"}}, "readinessChecks": []any{map[string]any{"type": "None"}}}}))
 				}
 				if err := xrk.ReconcileComposition(w, "comp"); err != nil {
 					panic(err)
 				}
-				w.MustSeed("user", xrk.XRObject(g+"/v1", "XThing", "xr"+r.suffix, "comp", map[string]any{"writeConnectionSecretToRef": map[string]any{"name": "xr-conn" + r.suffix, "namespace": "crossplane-system"}}))
+				w.MustSeed("user", xrk.XRObject(g+"/v1", "XThing", "xr"+r.suffix, "comp", map[string]any{"wantName": "fixed-name" + r.suffix, "writeConnectionSecretToRef": map[string]any{"name": "xr-conn" + r.suffix, "namespace": "crossplane-system"}}))
 			},
 			run: func(w *sim.World) outcome {
 				var o outcome
@@ -358,6 +359,37 @@ func plant(w *sim.World, created map[string]any, variant string) sim.Key {
 		}
 		md["ownerReferences"] = []any{map[string]any{"apiVersion": legit["apiVersion"], "kind": legit["kind"], "name": sim.Str(legit, "name") + "-s3-0a1b2c3d4e5f",
 			"uid": "foreign-uid-0002", "controller": true, "blockOwnerDeletion": true}}
+	}
+	if variant == "foreign-plus-owner" {
+		// another owner took control; the legitimate owner (as it exists in this world) is still
+		// listed, but no longer as the controller
+		if legit == nil {
+			return sim.Key{}
+		}
+		gv, _ := schema.ParseGroupVersion(sim.Str(legit, "apiVersion"))
+		var own map[string]any
+		for _, cand := range w.ListObjs(schema.GroupKind{Group: gv.Group, Kind: sim.Str(legit, "kind")}) {
+			if sim.Str(cand, "metadata", "name") == sim.Str(legit, "name") {
+				own = cand
+			}
+		}
+		if own == nil {
+			return sim.Key{}
+		}
+		md["ownerReferences"] = []any{foreignRef(), map[string]any{"apiVersion": legit["apiVersion"], "kind": legit["kind"], "name": legit["name"], "uid": sim.Str(own, "metadata", "uid")}}
+	}
+	if variant == "foreign-bare" {
+		// an unrelated object that merely has the name: none of Crossplane's labels or annotations
+		md["ownerReferences"] = []any{foreignRef()}
+		for _, f := range []string{"labels", "annotations"} {
+			if m, ok := md[f].(map[string]any); ok {
+				for k := range m {
+					if strings.Contains(k, "crossplane.io") {
+						delete(m, k)
+					}
+				}
+			}
+		}
 	}
 	ls, _ := md["labels"].(map[string]any)
 	if ls == nil {
@@ -458,9 +490,9 @@ func runSite(c *kit.Ctx, s site, round int) {
 	c.Count("probe_created_objects", int64(len(created)))
 	sort.Slice(created, func(i, j int) bool { return sim.KeyOf(created[i]).String() < sim.KeyOf(created[j]).String() })
 	for _, obj := range created {
-		for _, variant := range []string{"foreign", "foreign-lookalike", "uncontrolled"} {
+		for _, variant := range []string{"foreign", "foreign-lookalike", "foreign-plus-owner", "foreign-bare", "uncontrolled"} {
 			k := sim.KeyOf(obj)
-			if variant == "foreign-lookalike" && sim.ControllerOf(obj) == nil {
+			if (variant == "foreign-lookalike" || variant == "foreign-plus-owner") && sim.ControllerOf(obj) == nil {
 				continue
 			}
 			caseName := fmt.Sprintf("%s/%s/%s/%s/r%d", s.name, k.Kind, strings.ReplaceAll(k.Name, sfx, ""), variant, round)
@@ -470,6 +502,9 @@ func runSite(c *kit.Ctx, s site, round int) {
 			w := sim.NewWorld(xrk.Scheme(), uint64(c.Seed)*179+uint64(round))
 			s.setup(w, &siteRng{suffix: sfx})
 			pk := plant(w, obj, variant)
+			if pk == (sim.Key{}) {
+				continue
+			}
 			before := w.GetObj(pk)
 			f := w.LogLen()
 			var o outcome
@@ -478,6 +513,33 @@ func runSite(c *kit.Ctx, s site, round int) {
 				continue
 			}
 			judge(c, s, caseName, variant, w, pk, before, f, o, nil)
+			// second phase: the legitimate owner is deleted; its clean-up must leave the foreign
+			// object alone as well (an orphaned object needs no conflict report)
+			legit := sim.ControllerOf(obj)
+			if !strings.HasPrefix(variant, "foreign") || legit == nil {
+				continue
+			}
+			gv, _ := schema.ParseGroupVersion(sim.Str(legit, "apiVersion"))
+			deleted := false
+			for _, cand := range w.ListObjs(schema.GroupKind{Group: gv.Group, Kind: sim.Str(legit, "kind")}) {
+				if sim.Str(cand, "metadata", "name") == sim.Str(legit, "name") {
+					if err := w.Client("user").Delete(ctx, &unstructured.Unstructured{Object: cand}); err == nil {
+						deleted = true
+					}
+				}
+			}
+			if !deleted {
+				continue
+			}
+			before = w.GetObj(pk)
+			f = w.LogLen()
+			if err := kit.Try(func() { o = s.run(w) }); err != nil {
+				c.Violate("panic:"+s.name, caseName+"/owner-deleted", err.Error(), nil)
+				continue
+			}
+			o.errs = append(o.errs, fmt.Errorf("not-required"))
+			judge(c, s, caseName+"/owner-deleted", variant, w, pk, before, f, o, map[string]any{"phase": "owner deleted"})
+			c.Count("owner_deleted_phases", 1)
 		}
 	}
 }
@@ -485,8 +547,11 @@ func runSite(c *kit.Ctx, s site, round int) {
 // ---- composed resources: re-parent after the first composition ----
 
 func composedSites(c *kit.Ctx, round int) {
-	for _, mode := range []string{"pipeline", "pt"} {
+	for _, mode := range []string{"pipeline", "pt", "pt-anon"} {
 		for _, what := range []string{"still-desired", "no-longer-desired", "recreated-by-foreign-behind-cache"} {
+			if mode == "pt-anon" && what == "no-longer-desired" {
+				continue // anonymous templates cannot be removed individually
+			}
 			caseName := fmt.Sprintf("xr-%s-composed-reparented/%s/r%d", mode, what, round)
 			if !c.Want(caseName) {
 				continue
@@ -509,7 +574,11 @@ func composedSites(c *kit.Ctx, round int) {
 			tmpl := func(ns []string) []map[string]any {
 				var ts []map[string]any
 				for _, n := range ns {
-					ts = append(ts, map[string]any{"name": n, "base": nopObj("NopA", n)})
+					t := map[string]any{"name": n, "base": nopObj("NopA", n)}
+					if mode == "pt-anon" {
+						delete(t, "name")
+					}
+					ts = append(ts, t)
 				}
 				return ts
 			}
@@ -539,7 +608,7 @@ func composedSites(c *kit.Ctx, round int) {
 			// somebody else takes over composed resource "a"
 			var pk sim.Key
 			for _, o := range w.ListObjs(sim.Key{Group: "nop.ex.org", Kind: "NopA"}.GK()) {
-				if n, _, _ := unstructured.NestedString(o, "metadata", "annotations", annResName); n == "a" {
+				if sim.Str(o, "spec", "forProvider", "v") == "a" {
 					u := &unstructured.Unstructured{Object: o}
 					pk = sim.KeyOf(o)
 					if what == "recreated-by-foreign-behind-cache" {
